@@ -63,11 +63,13 @@ Fixpoint run_ops (t : octree) (ops : list oc_op) : outcome (list oc_obs) :=
   match ops with
   | [] => Ok []
   | OIns c :: r => let* t' := oc_insert t c in run_ops t' r
-  | OPrune :: r => run_ops (oc_prune t) r
+  | OPrune :: r => let* t' := oc_prune t in run_ops t' r
   | OPruneUntil k :: r => let* t' := prune_until k t in run_ops t' r
   | OPalette :: r =>
       let* p := build_palette t in let* o := run_ops t r in Ok (BPal p :: o)
-  | ODigraph :: r => let* o := run_ops t r in Ok (BDig (digraph t) :: o)
+  | ODigraph :: r =>
+      if has_zero_leaf t then Panic 1073
+      else let* o := run_ops t r in Ok (BDig (digraph t) :: o)
   end.
 
 Fixpoint dnode_eqb (a b : dnode) {struct a} : bool :=
